@@ -81,21 +81,36 @@ where
     let listener = TcpListener::bind(format!("{}:{}", config.host, config.port)).await?;
     info!("Tcp server running => {}|{}|{}:{}", config.protocol, config.cipher, config.host, config.port);
     match (&config.ssl, &config.ws) {
-        (None, ws_config) => {
-            while let Ok((inbound, _)) = listener.accept().await {
-                if ws_config.is_some() {
-                    tokio::spawn(template::tcp::accept_websocket_then_replay(inbound, new_codec(context.as_ref())?));
-                } else {
-                    tokio::spawn(template::tcp::relay(inbound, new_codec(context.as_ref())?));
+        (None, ws_config) => loop {
+            // a failing accept (for instance EMFILE while descriptors are exhausted) is not the end of the service
+            let inbound = match listener.accept().await {
+                Ok((inbound, _)) => inbound,
+                Err(e) => {
+                    error!("[tcp] accept failed; error={}", e);
+                    tokio::time::sleep(std::time::Duration::from_millis(100)).await;
+                    continue;
                 }
+            };
+            if ws_config.is_some() {
+                tokio::spawn(template::tcp::accept_websocket_then_replay(inbound, new_codec(context.as_ref())?));
+            } else {
+                tokio::spawn(template::tcp::relay(inbound, new_codec(context.as_ref())?));
             }
-        }
+        },
         (Some(ssl_config), ws_config) => {
             let cert = CertificateDer::from_pem_file(ssl_config.certificate_file.as_str())?;
             let key = PrivateKeyDer::from_pem_file(ssl_config.key_file.as_str())?;
             let tls_config = rustls::ServerConfig::builder().with_no_client_auth().with_single_cert(vec![cert], key)?;
             let tls_acceptor = TlsAcceptor::from(Arc::new(tls_config));
-            while let Ok((inbound, _)) = listener.accept().await {
+            loop {
+                let inbound = match listener.accept().await {
+                    Ok((inbound, _)) => inbound,
+                    Err(e) => {
+                        error!("[tcp] accept failed; error={}", e);
+                        tokio::time::sleep(std::time::Duration::from_millis(100)).await;
+                        continue;
+                    }
+                };
                 let codec = new_codec(context.as_ref())?;
                 match tls_acceptor.accept(inbound).await {
                     Ok(inbound) => {
@@ -110,7 +125,6 @@ where
             }
         }
     }
-    Ok(())
 }
 
 async fn startup_quic<RefContext, Context, NewCodec, Codec>(
